@@ -636,6 +636,14 @@ func relayOp(r *relayInst, fs []string) string {
 		}
 		w.c.SetCloseHandler(func(code int, text string) error { return nil }) // never answers a close frame
 		return "ok"
+	case fs[0] == "settle" && len(fs) == 2:
+		// let the relay's own slow consumers (the stats reporter reads its queue once a second) catch up
+		ms, err := strconv.Atoi(fs[1])
+		if err != nil || ms < 0 || ms > 5000 {
+			return "bad-op"
+		}
+		time.Sleep(time.Duration(ms) * time.Millisecond)
+		return "ok"
 	case fs[0] == "floodtypes" && len(fs) == 2:
 		r.floodAlternate = fs[1] == "alternate"
 		return "ok"
